@@ -162,6 +162,13 @@ def build(case, name="fore"):
         _quiet(lambda: fore.event_count)
         _quiet(fore.sum)
         fore.scale(1)
+        # ... and the caller normalised the marginals it got, in place (they are the caller's arrays)
+        for fn in (fore.spatial_counts, fore.magnitude_counts):
+            a = _quiet(fn)
+            try:
+                a /= 2.0 * a.sum()
+            except Exception:  # noqa
+                pass
     return fore, cat, reg, w
 
 
